@@ -374,6 +374,26 @@ def run_cfg(chk, facts, cfg):
     chk.ob('%s:who-constructs%s' % (PID, sfx), 'who-may-construct', 'registers are created only inside the register\'s own impls (constructor, Default, From, Clone, serde derives): no re-seeding from value()',
            not bad_callers and not bad_aggs, 'constructor called from %s; aggregates in %s' % (bad_callers, bad_aggs), facts.loc(new['id']),
            sample={'constructor_callers': sorted(facts.fns[d]['path'] for d in ctor_callers), 'aggregate_sites': sorted(facts.fns[d]['path'] for d in agg_sites)})
+    # a register is never collapsed into another one: no function reads `value()` of a register and also updates a register
+    # by value (`+= x`, `+ x`, `new(x)`) - that would drop the source's compensation and, in a merge, feed a partial sum
+    # through the by-value kernel, whose recovery is not exact for an addend larger than the running sum
+    try:
+        upd = set(f_['id'] for f_ in (add_t, addx, new) if f_ is not None)
+        add_s_ = facts.trait_method('core::ops::AddAssign', kp, 'add_assign', trait_args=lambda imp: [t.get('adt') for t in imp.get('trait_args', [])] == [kp])
+        own_ids = set()
+        bad_mix = []
+        for root, insts in facts.inst_roots.items():
+            for ins in insts:
+                if ins['def'] not in facts.fns or own(ins['def']):
+                    continue
+                callees = set(insts[c['inst']]['def'] for bb, c in ins['allcalls'] if 'inst' in c)
+                if sm.value_fn['id'] in callees and callees & upd:
+                    bad_mix.append(facts.fns[ins['def']]['path'])
+        bad_mix = sorted(set(bad_mix))
+        chk.ob('%s:no-collapse%s' % (PID, sfx), 'who-may-call', 'no function outside the register reads value() of a register and updates a register by value (a register is merged as a register, with its compensation)',
+               not bad_mix, 'value() and a by-value register update in: %s' % bad_mix[:3], facts.loc(sm.value_fn['id']))
+    except (KeyError, TypeError) as e:
+        chk.ob('%s:no-collapse%s' % (PID, sfx), 'who-may-call', 'no-collapse', None, 'undecided: %r' % (e,), facts.loc(sm.value_fn['id']))
     # the statistics state holds two registers
     d = sm.arith_default_value
     cnt['acc'] = sum(1 for x in d[3] if x[0] == 'adt' and x[1] == kp)
